@@ -43,9 +43,9 @@ Model/Core.vos Model/Core.vok Model/Core.required_vos: Model/Core.v Lib/NumOps.v
 Model/Death.vo Model/Death.glob Model/Death.v.beautified Model/Death.required_vo: Model/Death.v Gen/GenStruct.vo
 Model/Death.vio: Model/Death.v Gen/GenStruct.vio
 Model/Death.vos Model/Death.vok Model/Death.required_vos: Model/Death.v Gen/GenStruct.vos
-Model/Fail.vo Model/Fail.glob Model/Fail.v.beautified Model/Fail.required_vo: Model/Fail.v Gen/GenAsync.vo Gen/GenStruct.vo Model/OrderHist.vo Model/Apply.vo
-Model/Fail.vio: Model/Fail.v Gen/GenAsync.vio Gen/GenStruct.vio Model/OrderHist.vio Model/Apply.vio
-Model/Fail.vos Model/Fail.vok Model/Fail.required_vos: Model/Fail.v Gen/GenAsync.vos Gen/GenStruct.vos Model/OrderHist.vos Model/Apply.vos
+Model/Fail.vo Model/Fail.glob Model/Fail.v.beautified Model/Fail.required_vo: Model/Fail.v Gen/GenAsync.vo Gen/GenStruct.vo Gen/GenObserve.vo Model/OrderHist.vo Model/Apply.vo
+Model/Fail.vio: Model/Fail.v Gen/GenAsync.vio Gen/GenStruct.vio Gen/GenObserve.vio Model/OrderHist.vio Model/Apply.vio
+Model/Fail.vos Model/Fail.vok Model/Fail.required_vos: Model/Fail.v Gen/GenAsync.vos Gen/GenStruct.vos Gen/GenObserve.vos Model/OrderHist.vos Model/Apply.vos
 Model/FailAux.vo Model/FailAux.glob Model/FailAux.v.beautified Model/FailAux.required_vo: Model/FailAux.v Gen/GenAsync.vo Gen/GenStruct.vo Model/OrderHist.vo Model/Fail.vo
 Model/FailAux.vio: Model/FailAux.v Gen/GenAsync.vio Gen/GenStruct.vio Model/OrderHist.vio Model/Fail.vio
 Model/FailAux.vos Model/FailAux.vok Model/FailAux.required_vos: Model/FailAux.v Gen/GenAsync.vos Gen/GenStruct.vos Model/OrderHist.vos Model/Fail.vos
@@ -112,9 +112,9 @@ Proofs/DeathProofs.vos Proofs/DeathProofs.vok Proofs/DeathProofs.required_vos: P
 Proofs/FailAuxProofs.vo Proofs/FailAuxProofs.glob Proofs/FailAuxProofs.v.beautified Proofs/FailAuxProofs.required_vo: Proofs/FailAuxProofs.v Gen/GenAsync.vo Gen/GenStruct.vo Model/OrderHist.vo Model/Fail.vo Model/FailAux.vo
 Proofs/FailAuxProofs.vio: Proofs/FailAuxProofs.v Gen/GenAsync.vio Gen/GenStruct.vio Model/OrderHist.vio Model/Fail.vio Model/FailAux.vio
 Proofs/FailAuxProofs.vos Proofs/FailAuxProofs.vok Proofs/FailAuxProofs.required_vos: Proofs/FailAuxProofs.v Gen/GenAsync.vos Gen/GenStruct.vos Model/OrderHist.vos Model/Fail.vos Model/FailAux.vos
-Proofs/FailProofs.vo Proofs/FailProofs.glob Proofs/FailProofs.v.beautified Proofs/FailProofs.required_vo: Proofs/FailProofs.v Gen/GenAsync.vo Gen/GenStruct.vo Model/OrderHist.vo Model/Apply.vo Proofs/ApplyProofs.vo Model/Fail.vo
-Proofs/FailProofs.vio: Proofs/FailProofs.v Gen/GenAsync.vio Gen/GenStruct.vio Model/OrderHist.vio Model/Apply.vio Proofs/ApplyProofs.vio Model/Fail.vio
-Proofs/FailProofs.vos Proofs/FailProofs.vok Proofs/FailProofs.required_vos: Proofs/FailProofs.v Gen/GenAsync.vos Gen/GenStruct.vos Model/OrderHist.vos Model/Apply.vos Proofs/ApplyProofs.vos Model/Fail.vos
+Proofs/FailProofs.vo Proofs/FailProofs.glob Proofs/FailProofs.v.beautified Proofs/FailProofs.required_vo: Proofs/FailProofs.v Gen/GenAsync.vo Gen/GenStruct.vo Gen/GenObserve.vo Model/OrderHist.vo Model/Apply.vo Proofs/ApplyProofs.vo Model/Fail.vo
+Proofs/FailProofs.vio: Proofs/FailProofs.v Gen/GenAsync.vio Gen/GenStruct.vio Gen/GenObserve.vio Model/OrderHist.vio Model/Apply.vio Proofs/ApplyProofs.vio Model/Fail.vio
+Proofs/FailProofs.vos Proofs/FailProofs.vok Proofs/FailProofs.required_vos: Proofs/FailProofs.v Gen/GenAsync.vos Gen/GenStruct.vos Gen/GenObserve.vos Model/OrderHist.vos Model/Apply.vos Proofs/ApplyProofs.vos Model/Fail.vos
 Proofs/HistProofs.vo Proofs/HistProofs.glob Proofs/HistProofs.v.beautified Proofs/HistProofs.required_vo: Proofs/HistProofs.v Gen/GenStruct.vo Gen/GenParams.vo Model/OrderHist.vo Model/Hist.vo
 Proofs/HistProofs.vio: Proofs/HistProofs.v Gen/GenStruct.vio Gen/GenParams.vio Model/OrderHist.vio Model/Hist.vio
 Proofs/HistProofs.vos Proofs/HistProofs.vok Proofs/HistProofs.required_vos: Proofs/HistProofs.v Gen/GenStruct.vos Gen/GenParams.vos Model/OrderHist.vos Model/Hist.vos
@@ -139,9 +139,9 @@ Props/C01.vos Props/C01.vok Props/C01.required_vos: Props/C01.v Lib/NumOps.vos G
 Props/C02.vo Props/C02.glob Props/C02.v.beautified Props/C02.required_vo: Props/C02.v Lib/NumOps.vo Gen/GenProto.vo Model/Core.vo Spec/ProtoSpec.vo Proofs/CoreCons.vo Proofs/CoreResult.vo
 Props/C02.vio: Props/C02.v Lib/NumOps.vio Gen/GenProto.vio Model/Core.vio Spec/ProtoSpec.vio Proofs/CoreCons.vio Proofs/CoreResult.vio
 Props/C02.vos Props/C02.vok Props/C02.required_vos: Props/C02.v Lib/NumOps.vos Gen/GenProto.vos Model/Core.vos Spec/ProtoSpec.vos Proofs/CoreCons.vos Proofs/CoreResult.vos
-Props/C03.vo Props/C03.glob Props/C03.v.beautified Props/C03.required_vo: Props/C03.v Lib/NumOps.vo Gen/GenProto.vo Model/Core.vo Spec/ProtoSpec.vo Proofs/CoreInv.vo Proofs/CoreInit.vo Proofs/CoreProgress.vo Proofs/CoreMeasure.vo
-Props/C03.vio: Props/C03.v Lib/NumOps.vio Gen/GenProto.vio Model/Core.vio Spec/ProtoSpec.vio Proofs/CoreInv.vio Proofs/CoreInit.vio Proofs/CoreProgress.vio Proofs/CoreMeasure.vio
-Props/C03.vos Props/C03.vok Props/C03.required_vos: Props/C03.v Lib/NumOps.vos Gen/GenProto.vos Model/Core.vos Spec/ProtoSpec.vos Proofs/CoreInv.vos Proofs/CoreInit.vos Proofs/CoreProgress.vos Proofs/CoreMeasure.vos
+Props/C03.vo Props/C03.glob Props/C03.v.beautified Props/C03.required_vo: Props/C03.v Lib/NumOps.vo Gen/GenProto.vo Model/Core.vo Spec/ProtoSpec.vo Proofs/CoreInv.vo Proofs/CoreInit.vo Proofs/CoreProgress.vo Proofs/CoreMeasure.vo Gen/GenAsync.vo Gen/GenStruct.vo Gen/GenObserve.vo Model/OrderHist.vo Model/Apply.vo Model/Fail.vo Proofs/FailProofs.vo
+Props/C03.vio: Props/C03.v Lib/NumOps.vio Gen/GenProto.vio Model/Core.vio Spec/ProtoSpec.vio Proofs/CoreInv.vio Proofs/CoreInit.vio Proofs/CoreProgress.vio Proofs/CoreMeasure.vio Gen/GenAsync.vio Gen/GenStruct.vio Gen/GenObserve.vio Model/OrderHist.vio Model/Apply.vio Model/Fail.vio Proofs/FailProofs.vio
+Props/C03.vos Props/C03.vok Props/C03.required_vos: Props/C03.v Lib/NumOps.vos Gen/GenProto.vos Model/Core.vos Spec/ProtoSpec.vos Proofs/CoreInv.vos Proofs/CoreInit.vos Proofs/CoreProgress.vos Proofs/CoreMeasure.vos Gen/GenAsync.vos Gen/GenStruct.vos Gen/GenObserve.vos Model/OrderHist.vos Model/Apply.vos Model/Fail.vos Proofs/FailProofs.vos
 Props/C04.vo Props/C04.glob Props/C04.v.beautified Props/C04.required_vo: Props/C04.v Gen/GenAsync.vo Gen/GenStruct.vo Model/OrderHist.vo Model/Apply.vo Model/Fail.vo Proofs/FailProofs.vo Model/FailAux.vo Proofs/FailAuxProofs.vo
 Props/C04.vio: Props/C04.v Gen/GenAsync.vio Gen/GenStruct.vio Model/OrderHist.vio Model/Apply.vio Model/Fail.vio Proofs/FailProofs.vio Model/FailAux.vio Proofs/FailAuxProofs.vio
 Props/C04.vos Props/C04.vok Props/C04.required_vos: Props/C04.v Gen/GenAsync.vos Gen/GenStruct.vos Model/OrderHist.vos Model/Apply.vos Model/Fail.vos Proofs/FailProofs.vos Model/FailAux.vos Proofs/FailAuxProofs.vos
